@@ -55,6 +55,7 @@ type Result struct {
 	Templates  []string            `json:"templates,omitempty"`
 	Files      map[string]string   `json:"files,omitempty"`
 	RepeatSums []map[string]string `json:"repeat_sums,omitempty"`
+	RepeatOK   []bool              `json:"repeat_ok,omitempty"`
 	DurUS      int64               `json:"dur_us"`
 }
 
@@ -192,6 +193,8 @@ func main() {
 			runOnce(j, &res, tmpl)
 			if n > 1 {
 				res.RepeatSums = append(res.RepeatSums, hashDir(j.Out))
+				res.RepeatOK = append(res.RepeatOK, res.OK)
+				continue // every repetition runs: their verdicts are compared too
 			}
 			if !res.OK {
 				break
